@@ -235,6 +235,32 @@ pub fn cases_for(prop: &str, tier: &str, seed: u64, shard: (usize, usize)) -> (V
                 cases.push(c);
             }
         }
+        "C12" => {
+            let n = budget(tier, 320, 6000) / shard.1;
+            let mut tmp: Vec<Case> = vec![];
+            family_random_docs(&mut tmp, &pool, &mut rng, n, "purity", &format!("h{}x", shard.0), false);
+            let minimal = pool.iter().position(|s| s.name == "minimal").unwrap();
+            for mut c in tmp {
+                let plan: Vec<&str> = if rng.pct(70) { crate::op_validate::ALL_RULES.to_vec() } else { random_plan(&mut rng) };
+                let plan = if plan.is_empty() { vec!["KnownTypeNames"] } else { plan };
+                let mut extra = vec![format!("(plan {})", plan.join(" "))];
+                // the history: 2..8 other documents on the same schema, valid, invalid and cyclic ones
+                let hl = rng.range(2, if tier == "thorough" { 49 } else { 8 });
+                for _ in 0..hl {
+                    let text = if c.schema == minimal && rng.pct(40) {
+                        cyclic_doc(rng.range(1, 3), (rng.next() & 0x1FF) as u32, rng.below(3), rng.below(3), rng.below(3), rng.below(8) as u32).print()
+                    } else if rng.pct(40) {
+                        crate::genvalid::VGen::new(rng.fork(), &pool[c.schema], 3).doc().print()
+                    } else {
+                        Gen::new(rng.fork(), &pool[c.schema], GenCfg::wild()).gen_doc().print()
+                    };
+                    extra.push(format!("(hist {})", crate::sx::hex(text.as_bytes())));
+                }
+                c.note = format!("history={}", hl);
+                c.extra = extra;
+                cases.push(c);
+            }
+        }
         "C18" => {
             // exhaustive per schema; one case per pool schema (knows_nothing included), shard 0 only
             let depth = if tier == "thorough" { 3 } else { 2 };
@@ -299,6 +325,18 @@ pub fn run_impl(c: &Case, si: &SchemaInfo, doc: Option<&q::Document>) -> Vec<Str
         "trace" => crate::op_trace::run_trace(&si.doc, doc.unwrap()),
         "strace" => crate::op_trace::run_strace(&si.doc),
         "collect" => crate::op_misc::run_collect(&si.doc, doc.unwrap()),
+        "purity" => {
+            // extra[0] = plan, extra[1..] = further documents of the history as (hist <hex text>)
+            let mut docs = vec![doc.unwrap().clone()];
+            for e in &c.extra[1..] {
+                let hexs = e.trim_start_matches("(hist ").trim_end_matches(')');
+                let bytes: Vec<u8> = (0..hexs.len() / 2).map(|i| u8::from_str_radix(&hexs[2 * i..2 * i + 2], 16).unwrap()).collect();
+                if let Ok(d) = graphql_tools::parser::parse_query::<String>(&String::from_utf8_lossy(&bytes)) {
+                    docs.push(d.into_static());
+                }
+            }
+            crate::op_validate::run_purity(&si.doc, &docs, &crate::op_validate::parse_plan(&c.extra[0]))
+        }
         "ext" => crate::op_misc::run_ext(&si.doc, c.extra[0].parse().unwrap()),
         "validate13" => crate::op_validate::run_validate13(&si.doc, doc.unwrap(), &crate::op_validate::parse_plan(&c.extra[0])),
         "validate" => crate::op_validate::run_validate(&si.doc, doc.unwrap(), &crate::op_validate::parse_plan(&c.extra[0])),
